@@ -420,7 +420,7 @@ pub fn main(args: &[String]) -> i32 {
         let mut r = rng(6);
         for i in 0..n {
             let s = gen_batch(&mut r, maxq);
-            run_app_scenario(&mut out, &s, i % 4);
+            guarded(&mut out, |o| run_app_scenario(o, &s, i % 4));
         }
     }
     out.flush();
